@@ -685,6 +685,24 @@ def run_save(doc, log):
         if got is None or not np.allclose(np.asarray(got).reshape(want.shape), want, rtol=1e-12, atol=1e-14):
             raise Violation(PROP, "save-fidelity", f"point data {k_!r} in the file are not the values {'the caller handed to save()' if k_ != 'Cauchy Stress' else 'of the Cauchy stress projected to the points'}", site=f"save.{'cauchy' if k_ == 'Cauchy Stress' else 'extra-data'}")
     log.count("save-compared")
+    # a loop that saves every state with ONE dictionary of additional point data (created before the
+    # loop): the second file holds the second state
+    field[0].values[:] = 2.0 * u0 + 0.003
+    u1 = field[0].values.copy()
+    forces1 = None if forces is None else -0.5 * forces + 1.0
+    name1 = f"saved-again.{o['format']}"
+    fem.save(region, field, forces=None if forces1 is None else forces1.copy(), filename=name1, point_data=pdata, cell_data={"CellValue": [extra_c.copy()]})
+    back1 = meshio.read(name1)
+    got = back1.point_data.get("Displacements")
+    if got is None or not np.array_equal(np.asarray(got)[:, : m.dim], u1):
+        raise Violation(PROP, "save-fidelity", "second save() with the caller's dictionary of additional point data re-used: the displacements in the file are not the current field values", site="save.displacements[dict-reused]")
+    if forces1 is not None:
+        got = back1.point_data.get("Reaction Force")
+        if got is None or not np.array_equal(np.asarray(got)[:, : m.dim], forces1.reshape(u1.shape)):
+            raise Violation(PROP, "save-fidelity", "second save() with the caller's dictionary re-used: the reaction forces in the file are not the given forces", site="save.forces[dict-reused]")
+    if not np.array_equal(np.asarray(back1.point_data.get("Temperature")).ravel(), extra_p):
+        raise Violation(PROP, "save-fidelity", "second save() with the caller's dictionary re-used: additional point data changed", site="save.extra-data[dict-reused]")
+    log.count("save-dict-reused")
     return {"signature": f"save|{m.cell_type}|{o['format']}|{forces is not None}", "nontrivial": True}
 
 
